@@ -1,6 +1,7 @@
 import Cutadapt.Proofs.StepsShape
 import Cutadapt.Proofs.StepsPrefix
 import Cutadapt.Properties.C14
+import Cutadapt.Generated.FilterOrder
 /-! # C11 — filters use the documented criteria, in order, one destination per read
 
 Model: `Cutadapt.Pipeline` (`Pred.test`, `stepS`, `stepP`, `runStepsS/P`, `processReadS`), `Cutadapt.Assembly.makeSteps`.
@@ -253,4 +254,26 @@ example : casavaFiltered [114, 32, 49, 58, 78, 58, 49, 56] = false := by decide
 theorem criteria_trimmed (r : Read) (i : Info) :
     (Pred.isTrimmed.test r i = .ok true ↔ i.mts ≠ []) ∧ (Pred.isUntrimmed.test r i = .ok true ↔ i.mts = []) := by
   constructor <;> cases h : i.mts <;> simp [Pred.test, h]
+/-! ## The first applicable filter of the real program (regenerated from the working tree on every run) -/
+
+/-- the documented order of the filters (`--untrimmed-output` takes the place of `--discard-untrimmed` and counts under its category) -/
+def documentedFilterOrder : List String :=
+  ["too_short", "too_long", "too_many_n", "too_many_expected_errors", "too_high_average_error_rate", "casava_filtered",
+   "discard_trimmed", "discard_untrimmed", "untrimmed_output"]
+
+def filterRank (s : String) : Nat := documentedFilterOrder.idxOf s
+def filterCategory (s : String) : String := if s == "untrimmed_output" then "discard_untrimmed" else s
+/-- the filters that were given a redirect file in the probe runs -/
+def filterRedirect (s : String) : List String := if s == "too_short" || s == "too_long" || s == "untrimmed_output" then [s] else []
+
+/-- **In the real program the first applicable filter in the documented order consumes the read, whatever the order of the options on the
+    command line; the read is counted under that filter only and written to that filter's redirect file only** (a probe read that meets the
+    criteria of both filters, for every pair of filter options in both orders; `filter_order` and `first_applicable_consumes` state the same
+    of the model for all option records and reads). -/
+theorem generated_first_applicable_filter_wins :
+    ∀ row ∈ Generated.filterPairs,
+      row.2.2.1 = [filterCategory (if filterRank row.1 ≤ filterRank row.2.1 then row.1 else row.2.1)] ∧
+      row.2.2.2 = filterRedirect (if filterRank row.1 ≤ filterRank row.2.1 then row.1 else row.2.1) := by
+  decide
+
 end Cutadapt.C11
